@@ -1,5 +1,6 @@
 import Modbus.Model.Request
 import Modbus.Model.Registers
+import Modbus.Model.Response
 /-
   Model of builder.go / splitter.go: field validation, grouping by (server, unit, coil-vs-register),
   slot merging, sorting by address, greedy batching under the protocol limit, packet construction,
@@ -196,5 +197,19 @@ def extractRegisterFields (b : BReq) (payload : Slice) (lenient : Bool) : Extrac
   | .ok r => extractLoop lenient r b.fields [] false
   | .err _ => .failed
   | .panic => .panicked
+
+/-- the loop of `extractCoilFields`: one `IsCoilSet(request start, field address)` per field -/
+def extractCoilLoop (lenient : Bool) (payload : Bytes) (start : UInt16) :
+    List Field → List (Field × PRes Val) → Bool → Extracted
+  | [], acc, hadErr => if hadErr then .some_ acc else .all acc
+  | f :: rest, acc, hadErr =>
+    match isBitSet payload start f.addr with
+    | .panic => .panicked
+    | .err e => if !lenient then .failed else extractCoilLoop lenient payload start rest (acc ++ [(f, .err e)]) true
+    | .ok v => extractCoilLoop lenient payload start rest (acc ++ [(f, .ok (.bool v))]) hadErr
+
+/-- `BuilderRequest.ExtractFields` for coil / discrete input responses: `payload` is the response's `Data` -/
+def extractCoilFields (b : BReq) (payload : Bytes) (lenient : Bool) : Extracted :=
+  extractCoilLoop lenient payload b.start b.fields [] false
 
 end Modbus.Model
